@@ -258,10 +258,10 @@ func ruleMultiplicity(r *Run) {
 	// one pass per depth: the loop around de.Execute has a strictly increasing induction variable
 	mgr := r.Anchor(rule, "executor.(*DepthExecutorManager).Execute")
 	if mgr != nil {
-		for _, e := range r.P.CG.Out[mgr] {
-			if fnName(e.Callee) != "executor.(*DepthExecutor).Execute" {
-				continue
-			}
+		passes := depthPassSites(r, mgr)
+		r.AtLeast(rule, "calls of DepthExecutor.Execute under the manager", len(passes), 1)
+		for _, ps := range passes {
+			e := ps.edge
 			loop := innermostLoop(e.Site.Block())
 			ok := false
 			if loop != nil {
@@ -935,7 +935,58 @@ func ruleFailFast(r *Run) {
 	if mgr == nil {
 		return
 	}
+	recvOf := func(fn *ssa.Function) string {
+		if fn.Signature.Recv() == nil {
+			return ""
+		}
+		return namedOf(fn.Signature.Recv().Type())
+	}
 	n := 0
+	// inHelper: the failure tests of the calls a helper of the manager makes (the loop body, or
+	// part of it, moved into a method of the same type): a failure must leave the helper with
+	// a non-nil error, which the caller's own test (checked like any other) turns into the
+	// end of the loop
+	var inHelper func(h *ssa.Function, depth int)
+	seenHelper := map[*ssa.Function]bool{mgr: true}
+	inHelper = func(h *ssa.Function, depth int) {
+		if seenHelper[h] || depth > 3 {
+			return
+		}
+		seenHelper[h] = true
+		for _, ins := range allInstrs(h) {
+			c, ok := ins.(*ssa.Call)
+			if !ok {
+				continue
+			}
+			if sc := c.Call.StaticCallee(); sc != nil && !c.Call.IsInvoke() && inModule(sc) && recvOf(sc) != "" && recvOf(sc) == recvOf(mgr) {
+				inHelper(r.P.declared(sc), depth+1)
+			}
+			errv := errorOfCall(c)
+			if errv == nil {
+				continue
+			}
+			for _, t := range failureTests(errv) {
+				n++
+				reach := blockReach(t.fail)
+				reach[t.fail] = true
+				good := true
+				for b := range reach {
+					ret, isRet := b.Instrs[len(b.Instrs)-1].(*ssa.Return)
+					if !isRet {
+						continue
+					}
+					rv := retVals(ret)
+					for i, v := range rv {
+						if isErrorish(h.Signature.Results().At(i).Type()) && isNilConst(v) {
+							good = false
+						}
+					}
+				}
+				r.Check(good, rule, fnName(h), "failure of "+calleeDesc(&c.Call)+" is reported to the depth loop", r.P.pos(c.Pos()),
+					"every return on the failure side carries an error, which the depth loop tests", "after this call failed the helper can return without an error: the depth loop goes on and the next iteration executes the pending requests again (root mutations are sent once more per remaining depth)")
+			}
+		}
+	}
 	for _, ins := range allInstrs(mgr) {
 		c, ok := ins.(*ssa.Call)
 		if !ok {
@@ -945,18 +996,12 @@ func ruleFailFast(r *Run) {
 		if loop == nil {
 			continue
 		}
-		var errv ssa.Value
-		if isErrorish(c.Type()) {
-			errv = c
-		} else if c.Referrers() != nil {
-			for _, ref := range *c.Referrers() {
-				if ex, ok := ref.(*ssa.Extract); ok && isErrorish(ex.Type()) {
-					errv = ex
-				}
-			}
-		}
+		errv := errorOfCall(c)
 		if errv == nil {
 			continue
+		}
+		if sc := c.Call.StaticCallee(); sc != nil && !c.Call.IsInvoke() && inModule(sc) && recvOf(sc) != "" && recvOf(sc) == recvOf(mgr) {
+			inHelper(r.P.declared(sc), 0)
 		}
 		for _, t := range failureTests(errv) {
 			n++
@@ -1427,4 +1472,60 @@ func creditsLeft(r *Run, keys []string) bool {
 		}
 	}
 	return true
+}
+
+// depthPass is a call in the manager's Execute that runs one depth: DepthExecutor.Execute
+// itself, or a helper method of the manager that (statically) calls it. nest is the number of
+// loops around the call, summed over the helpers on the way.
+type depthPass struct {
+	edge *Edge // the call in the manager's Execute
+	nest int
+}
+
+func loopDepthOf(b *ssa.BasicBlock) int {
+	d := 0
+	for _, h := range b.Parent().Blocks {
+		if l := naturalLoop(h); len(l) > 0 && l[b] {
+			d++
+		}
+	}
+	return d
+}
+
+func depthPassSites(r *Run, mgr *ssa.Function) []depthPass {
+	const target = "executor.(*DepthExecutor).Execute"
+	var nestTo func(fn *ssa.Function, depth int) []int
+	nestTo = func(fn *ssa.Function, depth int) []int {
+		var out []int
+		if depth > 3 {
+			return nil
+		}
+		for _, e := range r.P.CG.Out[fn] {
+			if e.Kind != "static" {
+				continue
+			}
+			if fnName(e.Callee) == target {
+				out = append(out, loopDepthOf(e.Site.Block()))
+			} else if e.Callee.Pkg == mgr.Pkg && e.Callee != mgr {
+				for _, d := range nestTo(e.Callee, depth+1) {
+					out = append(out, d+loopDepthOf(e.Site.Block()))
+				}
+			}
+		}
+		return out
+	}
+	var out []depthPass
+	for _, e := range r.P.CG.Out[mgr] {
+		if e.Kind != "static" {
+			continue
+		}
+		if fnName(e.Callee) == target {
+			out = append(out, depthPass{e, loopDepthOf(e.Site.Block())})
+		} else if e.Callee.Pkg == mgr.Pkg && e.Callee != mgr {
+			for _, d := range nestTo(e.Callee, 0) {
+				out = append(out, depthPass{e, d + loopDepthOf(e.Site.Block())})
+			}
+		}
+	}
+	return out
 }
